@@ -110,7 +110,13 @@ type closedOp struct {
 // structDigest identifies a structural state: size classes, fan-out
 // counters, path lengths and effective bytes, raw key lanes, branch bytes and
 // the keys themselves. Addresses and values are left out.
-func structDigest(d *art.VerifTree) uint64 {
+func structDigest(d *art.VerifTree) uint64 { return structDigestOpt(d, true) }
+
+// structDigestNoLanes leaves the raw key lanes out: what sits in unoccupied lanes
+// is not behaviour (used where two trees are compared for a verdict).
+func structDigestNoLanes(d *art.VerifTree) uint64 { return structDigestOpt(d, false) }
+
+func structDigestOpt(d *art.VerifTree, rawLanes bool) uint64 {
 	h := ev.NewHasher()
 	var walk func(in *art.VerifInner)
 	walk = func(in *art.VerifInner) {
@@ -118,10 +124,14 @@ func structDigest(d *art.VerifTree) uint64 {
 		h.U64(uint64(in.ChildrenLen))
 		h.U64(uint64(in.PrefixLen))
 		h.Bytes(in.Prefix[:min(int(in.PrefixLen), len(in.Prefix))])
-		h.Bytes(in.Lanes)
+		if rawLanes {
+			h.Bytes(in.Lanes)
+		}
 		for _, c := range in.Children {
 			h.Byte(c.Byte)
-			h.U64(uint64(c.Slot))
+			if rawLanes {
+				h.U64(uint64(c.Slot))
+			}
 			if c.Leaf != nil {
 				h.Bytes(c.Leaf.TKey)
 			} else if c.Inner != nil {
